@@ -813,6 +813,14 @@ func (c *Ctx) Forall(vars []*Term, body *Term) *Term {
 	}
 	return c.mk(&Term{Op: "forall", Args: append(append([]*Term{}, vars...), body), I: len(vars), S: BoolS})
 }
+
+// ForallPat is Forall with an instantiation pattern (E-matching trigger).
+func (c *Ctx) ForallPat(vars []*Term, body *Term, pat *Term) *Term {
+	if body.IsTrue() {
+		return body
+	}
+	return c.mk(&Term{Op: "forall", Args: append(append(append([]*Term{}, vars...), body), pat), I: len(vars), J: 1, S: BoolS})
+}
 func (c *Ctx) Exists(vars []*Term, body *Term) *Term {
 	if body.IsFalse() {
 		return body
@@ -999,7 +1007,15 @@ func (c *Ctx) print(sb *strings.Builder, t *Term, names map[*Term]string, depth 
 			fmt.Fprintf(sb, "(%s %s)", quoteSym(t.Args[i].Name), t.Args[i].S.s)
 		}
 		sb.WriteString(") ")
-		c.print(sb, t.Args[t.I], names, depth+1)
+		if t.J == 1 {
+			sb.WriteString("(! ")
+			c.print(sb, t.Args[t.I], names, depth+1)
+			sb.WriteString(" :pattern (")
+			c.print(sb, t.Args[t.I+1], names, depth+1)
+			sb.WriteString("))")
+		} else {
+			c.print(sb, t.Args[t.I], names, depth+1)
+		}
 		sb.WriteByte(')')
 	case "app":
 		if len(t.Args) == 0 {
